@@ -11,7 +11,8 @@
 //         PS_SUCCESS                                       =>  every authStatus == PS_CERT_AUTH_PASS  [documented contract]
 // The same source builds four targets: C03_KIND unset = mixed generator, 1 = attacker CA with copied signature (F5),
 // 2 = single soft defect (F4), 3 = revocation, 4 = history of validations over one CRL cache (prop_history),
-// 5 = validity-date encodings x boundary years x position relative to a (movable) virtual now.
+// 5 = validity-date encodings x boundary years x position relative to a (movable) virtual now,
+// 6 = certificates that reuse their issuer's subject DN (non-CA / CA issuers x keyUsage x basicConstraints, key roll-over).
 #include "vf.h"
 #include "mint.h"
 #include "model.h"
@@ -471,6 +472,8 @@ static void prop_history(vf::Tape &t, vf::Ctx &c)
 VF_TARGET("c03_crl_history", prop_history, 768, 60)
 #elif C03_KIND == 5
 VF_TARGET("c03_dates", prop, 768, 60)
+#elif C03_KIND == 6
+VF_TARGET("c03_same_name", prop, 768, 60)
 #elif C03_KIND == 1
 VF_TARGET("c03_copied_sig", prop, 768, 60)
 #elif C03_KIND == 2
